@@ -646,7 +646,7 @@ namespace awkward {
       identities = identities_.get()->getitem_range_nowrap(start, stop);
     }
     return std::make_shared<RegularArray>(
-      identities_,
+      identities,
       parameters_,
       content_.get()->getitem_range_nowrap(start*size_, stop*size_),
       size_,
